@@ -584,6 +584,7 @@ mod n {
             return text.to_string();
         }
         let mut out = String::with_capacity(text.len());
+        let (mut in_window, mut n_windows) = (false, 0usize);
         for line in text.split_inclusive('\n') {
             let (body, eol) = match line.strip_suffix("\r\n") {
                 Some(b) => (b, "\r\n"),
@@ -605,9 +606,39 @@ mod n {
                 },
                 (3, "X" | "Y" | "Z" | "WIDTH" | "HEIGHT" | "SETBACK", Some(v)) => v.parse::<f32>().ok().map(|x| Some(format!("{}", x + 0.125))),
                 (4, "CONDUCTIVITY" | "DENSITY" | "SPECIFIC-HEAT" | "RESISTANCE" | "GLASS-CONDUCTANCE" | "SHADING-COEF" | "FRAME-CONDUCT" | "FRAME-ABS" | "FRAME-WIDTH" | "PORCENTAGE" | "INF-COEF" | "TTL" | "FRSI" | "LONG-TOTAL", Some(v)) => v.parse::<f32>().ok().map(|x| Some(format!("{}", x * 0.5))),
-                (5, "SPECIFIC-HEAT" | "perteneceALaEnvolventeTermica" | "TransmisividadJulio" | "VAPOUR-DIFFUSIVITY-FACTOR" | "THICKNESS", Some(v)) if !v.starts_with('(') => Some(None),
+                (5, "SPECIFIC-HEAT" | "perteneceALaEnvolventeTermica" | "TransmisividadJulio" | "VAPOUR-DIFFUSIVITY-FACTOR" | "THICKNESS" | "TILT", Some(v)) if !v.starts_with('(') => Some(None),
                 _ => None,
             };
+            // rewrite 7: a Z of its own on every SPACE (HULC leaves it out: the space then sits on its floor)
+            if rewrite == 7 {
+                let t = body.trim();
+                if t.starts_with('"') && t.ends_with("= SPACE") {
+                    out.push_str(line);
+                    out.push_str(&format!("{}    Z = 0.5{}", indent, if eol.is_empty() { "\n" } else { eol }));
+                    continue;
+                }
+            }
+            // rewrite 6: solar protections on every window (written right before the `..` of the block, where they
+            // override earlier values of the same key)
+            if rewrite == 6 {
+                let t = body.trim();
+                if t.starts_with('"') && t.ends_with("= WINDOW") {
+                    in_window = true;
+                } else if in_window && t == ".." {
+                    n_windows += 1;
+                    let k = n_windows % 4;
+                    if k != 1 {
+                        out.push_str(&format!("{}OVERHANG-A = 0.25{}{}OVERHANG-B = 0.5{}{}OVERHANG-D = 0.75{}{}OVERHANG-W = 2.5{}{}OVERHANG-ANGLE = 15{}", indent, eol, indent, eol, indent, eol, indent, eol, indent, eol));
+                    }
+                    if k != 2 {
+                        out.push_str(&format!("{}LEFT-FIN-A = 0.125{}{}LEFT-FIN-B = 0.375{}{}LEFT-FIN-D = 0.625{}{}LEFT-FIN-H = 1.75{}", indent, eol, indent, eol, indent, eol, indent, eol));
+                    }
+                    if k != 3 {
+                        out.push_str(&format!("{}RIGHT-FIN-A = 0.0625{}{}RIGHT-FIN-B = 0.1875{}{}RIGHT-FIN-D = 0.3125{}{}RIGHT-FIN-H = 1.5{}", indent, eol, indent, eol, indent, eol, indent, eol));
+                    }
+                    in_window = false;
+                }
+            }
             match new {
                 None => out.push_str(line),
                 Some(None) => {}
@@ -629,9 +660,9 @@ mod n {
         files_with_ext(&tests_root(), "ctehexml", &mut files);
         files_with_ext(&tests_root().join("liderdata"), "cte", &mut files);
         let corpus: Vec<(String, String)> = files.iter().filter_map(|p| Some((p.file_name().unwrap().to_string_lossy().to_string(), bdl_text(p)?))).collect();
-        drive("C18.typed", "the 68 shipped BDL texts, as shipped and with 5 whole-file rewrites of written values (envelope flag SI <-> NO, space TYPE rotated, every X / Y / Z / WIDTH / HEIGHT / SETBACK shifted, every material / glazing / frame number halved, optional attributes removed so that the legacy defaults apply): every window, wall, space, polygon, material, layer set, glazing, frame, window construction, rectangular shade and thermal bridge of bdl::Data against the attribute values of its own block", |c| {
+        drive("C18.typed", "the 68 shipped BDL texts, as shipped and with 7 whole-file rewrites of written values (envelope flag SI <-> NO, space TYPE rotated, every X / Y / Z / WIDTH / HEIGHT / SETBACK shifted, every material / glazing / frame number halved, optional attributes incl. TILT removed so that the legacy defaults apply, overhangs / fins written on every window, a Z of its own written on every space): every window, wall, space, polygon, material, layer set, glazing, frame, window construction, rectangular shade and thermal bridge of bdl::Data against the attribute values of its own block", |c| {
             let (name, text) = c.of(&corpus);
-            let rewrite = c.pick(6);
+            let rewrite = c.pick(8);
             c.note(format!("{} rewrite {}", name, rewrite));
             let text = rewrite_values(&text, rewrite);
             let (blocks, data) = match (build_blocks(&text), Data::new(&text)) {
@@ -648,6 +679,21 @@ mod n {
                     Window => {
                         if let Some(w) = data.get_window(&b.name) {
                             nw += 1;
+                            // an overhang / fin exists exactly when its written depth x extent is positive, with the written sizes
+                            let g = |k: &str| f(b, k).unwrap_or(0.0);
+                            let oh_ok = match &w.overhang {
+                                Some(o) => g("OVERHANG-D") * g("OVERHANG-W") > 0.0 && o.depth == g("OVERHANG-D") && o.width == g("OVERHANG-W") && o.a == g("OVERHANG-A") && o.b == g("OVERHANG-B") && o.angle == g("OVERHANG-ANGLE"),
+                                None => !(g("OVERHANG-D") * g("OVERHANG-W") > 0.0),
+                            };
+                            let lf_ok = match &w.left_fin {
+                                Some(x) => g("LEFT-FIN-D") * g("LEFT-FIN-H") > 0.0 && x.depth == g("LEFT-FIN-D") && x.height == g("LEFT-FIN-H") && x.a == g("LEFT-FIN-A") && x.b == g("LEFT-FIN-B"),
+                                None => !(g("LEFT-FIN-D") * g("LEFT-FIN-H") > 0.0),
+                            };
+                            let rf_ok = match &w.right_fin {
+                                Some(x) => g("RIGHT-FIN-D") * g("RIGHT-FIN-H") > 0.0 && x.depth == g("RIGHT-FIN-D") && x.height == g("RIGHT-FIN-H") && x.a == g("RIGHT-FIN-A") && x.b == g("RIGHT-FIN-B"),
+                                None => !(g("RIGHT-FIN-D") * g("RIGHT-FIN-H") > 0.0),
+                            };
+                            c.check("C18.typed.window.protections", oh_ok && lf_ok && rf_ok, || format!("{}: window {}: overhang {:?} left fin {:?} right fin {:?} but the block says {:?}", name, b.name, w.overhang, w.left_fin, w.right_fin, b.attrs.0));
                             c.check("C18.typed.window", Some(w.x) == f(b, "X") && Some(w.y) == f(b, "Y") && Some(w.width) == f(b, "WIDTH") && Some(w.height) == f(b, "HEIGHT") && Some(w.setback) == f(b, "SETBACK") && Some(w.cons.clone()) == st(b, "GAP") && Some(w.wall.clone()) == b.parent, || format!("{}: window {} = {:?} but the block says {:?} under {:?}", name, b.name, (w.x, w.y, w.width, w.height, w.setback, &w.cons, &w.wall), b.attrs.0, b.parent));
                         } else {
                             c.check("C18.typed.window.present", false, || format!("{}: window {} is written but missing from the data", name, b.name));
@@ -656,7 +702,18 @@ mod n {
                     ExteriorWall | InteriorWall | UndergroundWall | Roof => {
                         if let Some(w) = data.get_wall(&b.name) {
                             nwall += 1;
-                            c.check("C18.typed.wall", Some(w.cons.clone()) == st(b, "CONSTRUCTION") && Some(w.space.clone()) == b.parent && w.x == f(b, "X").unwrap_or(0.0) && w.y == f(b, "Y").unwrap_or(0.0) && w.z == f(b, "Z").unwrap_or(0.0) && f(b, "TILT").map(|t| t == w.tilt).unwrap_or(true) && (b.btype != InteriorWall || w.nextto == st(b, "NEXT-TO")), || format!("{}: wall {} = {:?} but the block says {:?} under {:?}", name, b.name, (&w.cons, &w.space, w.x, w.y, w.z, w.tilt, &w.nextto), b.attrs.0, b.parent));
+                            // documented defaults: location TOP / BOTTOM / SPACE-Vn (kept as Vn); tilt when not written:
+                            // roofs and TOP elements 0, BOTTOM elements 180, everything else 90; boundary by block type
+                            let loc_want = st(b, "LOCATION").map(|l| l.strip_prefix("SPACE-").map(str::to_string).unwrap_or(l));
+                            let tilt_want = f(b, "TILT").unwrap_or(if b.btype == Roof || loc_want.as_deref() == Some("TOP") { 0.0 } else if loc_want.as_deref() == Some("BOTTOM") { 180.0 } else { 90.0 });
+                            let bounds_want = match (b.btype, st(b, "INT-WALL-TYPE").as_deref()) {
+                                (InteriorWall, Some("ADIABATIC")) => "ADIABATIC",
+                                (InteriorWall, _) => "INTERIOR",
+                                (UndergroundWall, _) => "GROUND",
+                                _ => "EXTERIOR",
+                            };
+                            c.check("C18.typed.wall.defaults", w.tilt == tilt_want && w.location == loc_want && format!("{:?}", w.bounds) == bounds_want && w.polygon.is_some() == st(b, "POLYGON").is_some(), || format!("{}: wall {} ({:?}): tilt {} location {:?} bounds {:?} polygon {} but the block says {:?}", name, b.name, b.btype, w.tilt, w.location, w.bounds, w.polygon.is_some(), b.attrs.0));
+                            c.check("C18.typed.wall", Some(w.cons.clone()) == st(b, "CONSTRUCTION") && Some(w.space.clone()) == b.parent && w.x == f(b, "X").unwrap_or(0.0) && w.y == f(b, "Y").unwrap_or(0.0) && w.z == f(b, "Z").unwrap_or(0.0) && f(b, "TILT").map(|t| t == w.tilt).unwrap_or(true) && w.nextto == (if bounds_want == "INTERIOR" { st(b, "NEXT-TO") } else { None }), || format!("{}: wall {} = {:?} but the block says {:?} under {:?}", name, b.name, (&w.cons, &w.space, w.x, w.y, w.z, w.tilt, &w.nextto), b.attrs.0, b.parent));
                         } else {
                             c.check("C18.typed.wall.present", false, || format!("{}: wall {} is written but missing from the data", name, b.name));
                         }
@@ -666,6 +723,9 @@ mod n {
                             nsp += 1;
                             let poly_ok = st(b, "POLYGON").and_then(|p| polygons.get(p.as_str()).map(|pb| vertices_of(pb))).map(|v| v.len() == s.polygon.0.len() && v.iter().zip(s.polygon.0.iter()).all(|(a, p)| a.0 == p.x && a.1 == p.y)).unwrap_or(false);
                             c.check("C18.typed.space", Some(s.stype.clone()) == st(b, "TYPE") && s.x == f(b, "X").unwrap_or(0.0) && s.y == f(b, "Y").unwrap_or(0.0) && Some(s.multiplier) == f(b, "MULTIPLIER") && Some(s.floor.clone()) == b.parent && Some(s.power) == f(b, "POWER"), || format!("{}: space {} = {:?} but the block says {:?} under {:?}", name, b.name, (&s.stype, s.x, s.y, s.multiplier, &s.floor, s.power), b.attrs.0, b.parent));
+                            // a space sits on its floor: z = Z of the FLOOR block + the space's own Z (0 when not written)
+                            let floor_z = b.parent.as_ref().and_then(|fl| blocks.iter().find(|x| x.btype == Floor && x.name == *fl)).and_then(|fb| f(fb, "Z")).unwrap_or(0.0);
+                            c.check("C18.typed.space.z", s.z == floor_z + f(b, "Z").unwrap_or(0.0), || format!("{}: space {}: z {} but its floor is at {} and the block says Z = {:?}", name, b.name, s.z, floor_z, f(b, "Z")));
                             let inside_want = match st(b, "perteneceALaEnvolventeTermica").as_deref() {
                                 Some("SI") => true,
                                 Some(_) => false,
